@@ -251,10 +251,14 @@ def evaluate(check: Check, cases, pool=None):
     reqs = []
     spans = []
     for case, (st, obs) in zip(cases, res):
+        r = []
         if st == "ok":
-            r = check.model_requests(case, obs)
-        else:
-            r = []
+            try:
+                r = check.model_requests(case, obs)
+            except Exception:  # pylint: disable=broad-except
+                # the observation does not have the shape the model requests are built from (a shrinking
+                # candidate, or an implementation whose behaviour changed): a tie failure, never a crash
+                res[len(spans)] = ("reqcrash", traceback.format_exc()[-1500:])
         spans.append((len(reqs), len(reqs) + len(r)))
         reqs.extend(r)
     outs = common.run_model(reqs) if reqs else []
@@ -262,6 +266,10 @@ def evaluate(check: Check, cases, pool=None):
         XCHECK_SAMPLE.extend(list(zip(reqs, outs)))
     results = []
     for case, (st, obs), (a, b) in zip(cases, res, spans):
+        if st == "reqcrash":
+            results.append((case, None, [Failure("tie", "model-requests-crash",
+                                                  "the observation cannot be turned into model requests: " + obs)]))
+            continue
         if st != "ok":
             results.append((case, None, [Failure("oracle", "harness-crash",
                                                   "the implementation driver crashed: " + obs)]))
